@@ -145,7 +145,9 @@ def cmdstruct_def(rnd, tid, i):
     # `command("name")` names the command explicitly; a type without fields may be written as a unit struct
     return {"id": tid, "shape": "cmdstruct", "fields": fields, "variants": [], "version": False, "tname": tname, "tchars": chars(tname),
             "help": f"HELP-{tid}-cmd" if rnd.random() < 0.7 else "", "cmdname": f"cmd-{tid.lower()}" if rnd.random() < 0.5 else "",
-            "unit": not fields and rnd.random() < 0.7}
+            "unit": not fields and rnd.random() < 0.7,
+            # a usage line supplied by the program for the command
+            "usage": f"Usage: custom-{tid}" if rnd.random() < 0.4 else ""}
 
 
 def tuple_def(rnd, tid):
@@ -358,7 +360,8 @@ def rust_source(tds):
             if td["help"]:
                 out.append(f"/// {td['help']}")
             out.append("#[derive(Debug, Clone, Bpaf)]")
-            out.append(f'#[bpaf(command("{td["cmdname"]}"))]' if td["cmdname"] else "#[bpaf(command)]")
+            cattr = f'command("{td["cmdname"]}")' if td["cmdname"] else "command"
+            out.append(f'#[bpaf({cattr}, usage("{td["usage"]}"))]' if td.get("usage") else f"#[bpaf({cattr})]")
             if td["unit"]:
                 out.append(f"pub struct {td['tname']};")
             else:
